@@ -183,3 +183,81 @@ def rule_str_option(cx, tier):
     r.analysed = {"with_bounds_call_sites_in_index_instructions": n}
     r.floor("with_bounds call sites in index/slice instructions", n, 2)
     return r
+
+
+# ---------------------------------------------------------------------------------------------
+# R-SLICE-TAIL (C06, C15): cutting a constant number of bytes off the end of a string needs a test of that suffix
+
+def rule_slice_tail(cx, tier):
+    r = RuleResult("R-SLICE-TAIL", "a `str` slice bound of the form `len(s) - k` with a constant k is a character boundary "
+                                   "only when the last k bytes are known: every constant alternative of k is assigned on "
+                                   "the true edge of an `ends_with`/`strip_suffix` test (a line without a trailing newline, "
+                                   "or one ending in a multi-byte character, is otherwise cut inside its last character)")
+    from .narrow import FnBounds, Sym, _alternatives, _short, edge_side
+    from ..mir import op_base
+    F = cx.F
+    n = 0
+    for fn in F.fns.values():
+        if fn.derived or not fn.crate.uname.startswith("koto"):
+            continue
+        du = cx.du(fn)
+        sym = None
+        for c in fn.calls():
+            last = (c.pretty or c.short or "").rsplit("::", 1)[-1]
+            if last not in ("index", "index_mut", "get", "get_mut", "get_unchecked", "split_at") or len(c.args) < 2:
+                continue
+            t0 = fn.crate.tstr(c.arg_ty(0))
+            if not ("str" in t0.split("<")[0] or "String" in t0 or t0.endswith("str")):
+                continue
+            n += 1
+            r.instances += 1
+            sym = sym or Sym(cx, fn)
+            ops = [c.args[1]]
+            d = du.single_def(op_base(c.args[1])) if op_base(c.args[1]) is not None else None
+            if d is not None and d[2] == "assign" and d[3][0] == "agg":
+                ops = list(d[3][2])
+            for o in ops:
+                e = sym.expr(o)
+                subs = []
+                _find_tail_subs(e, subs)
+                for (lenleaf, k) in subs:
+                    r.nontrivial += 1
+                    cfg = cx.cfg(fn)
+                    tests = [c2 for c2 in fn.calls() if (c2.pretty or c2.short or "").rsplit("::", 1)[-1] in
+                             ("ends_with", "strip_suffix") and not c2.dest[1]]
+                    alts = [(k, c.bb)] if k[0] == "K" else list(zip(k[3], k[4])) if k[0] == "phi" else []
+                    bad = []
+                    for alt, db in alts:
+                        if alt[0] != "K" or alt[1] == 0:
+                            if alt[0] != "K":
+                                bad.append(_short(alt))
+                            continue
+                        ok = any((t.bb == db or cfg.dominates(t.bb, db)) and
+                                 edge_side(cx, fn, cfg, t.bb, t.dest[0], db) == "true" for t in tests)
+                        if not ok:
+                            bad.append(str(alt[1]))
+                    if not alts:
+                        bad.append(_short(k))
+                    r.sample({"fn": fn.qual, "line": c.line, "bound": _short(e), "unjustified_k": bad})
+                    if bad:
+                        r.add(Finding("R-SLICE-TAIL", fn.qual, f"{lenleaf}-k",
+                                      f"the string is cut at `{_short(e)}`; for k = {', '.join(bad)} no `ends_with` test "
+                                      f"establishes what the last bytes are: the slice drops a real character, or panics "
+                                      f"inside a multi-byte one", fn.file, c.line))
+    r.analysed = {"str_slicing_sites": n}
+    r.floor("str slicing sites in the workspace", n, 10)
+    return r
+
+
+def _find_tail_subs(e, out):
+    if e[0] == "sub" and e[1][0] == "L" and e[1][1].startswith("len(") and \
+            (e[2][0] == "K" or (e[2][0] == "phi" and all(x[0] == "K" for x in e[2][3]))):
+        out.append((e[1][1], e[2]))
+        return
+    if e[0] == "phi":
+        for x in e[3]:
+            _find_tail_subs(x, out)
+    else:
+        for x in e[1:]:
+            if isinstance(x, tuple) and x and isinstance(x[0], str):
+                _find_tail_subs(x, out)
